@@ -161,9 +161,18 @@ def splice(prelude_src, master_src, ext_src, deferred, quarantined=()):
             efns[(ck, it.name)] = it
         elif it.kind == "type":
             etypes[it.name] = it
-    report = {"functions": {}, "types": {}, "deferred": [], "errors": []}
+    report = {"functions": {}, "types": {}, "deferred": [], "errors": [], "uncontracted": []}
     edits = []  # (start, end, replacement) on master.src
     seen = set()
+    # a type whose definition changed in /repo: its definition is taken from /repo (with the master's
+    # attributes) and every function of its impl blocks loses its contract
+    changed_types = set()
+    for ck0, it0 in master.walk():
+        if it0.kind == "type" and it0.name in etypes:
+            K0 = [master.toks[k].text for k in rtok.type_kept(master.toks, it0)]
+            A0 = [ext.toks[k].text for k in rtok.type_kept(ext.toks, etypes[it0.name])]
+            if K0 != A0:
+                changed_types.add(it0.name)
     for ck, it in master.walk():
         if it.kind == "fn" and it.exec_fn:
             key = (ck, it.name)
@@ -178,13 +187,26 @@ def splice(prelude_src, master_src, ext_src, deferred, quarantined=()):
             K = [master.toks[k].text for k in kept]
             eregs = rtok.exec_regions(ext.toks, eit)
             A = [ext.toks[k].text for k in rtok.kept_tokens(ext.toks, eit, eregs)]
-            if name in quarantined:
+            mprops = re.search(r"//\s*@props((?:\s+C\d+)+)", master.src[master.toks[it.lo].start:master.toks[it.body_lo].start] if it.body_lo >= 0 else "")
+            mprops = mprops.group(1).split() if mprops else []
+            level = quarantined.get(name, 0) if isinstance(quarantined, dict) else (1 if name in quarantined else 0)
+            if ck in changed_types:
+                level = 2
+            if level >= 2:
+                # the contract itself no longer fits (changed type, changed signature): emit the function of
+                # /repo without any ghost text and without specification
+                txt = ("#[verifier::external_body] // @uncontracted: the contract no longer fits this function\n"
+                       + ext.src[ext.toks[eit.lo].start:ext.toks[eit.hi - 1].end])
+                edits.append((master.toks[it.lo].start, master.toks[it.hi - 1].end, txt))
+                report["functions"][name] = {"status": "uncontracted", "exec_tokens": len(A), "props": mprops}
+                report.setdefault("uncontracted", []).append(name)
+            elif level == 1:
                 # keep the contract (header clauses), drop every ghost region of the body, do not verify the body
                 hregs = [r for r in regs if r[1] <= it.body_lo + 1]
                 txt, ratio, dropped = transplant(master, it, hregs, kept, ext, eit)
                 txt = "#[verifier::external_body] // @quarantined: body not read by the verifier\n" + txt
                 edits.append((master.toks[it.lo].start, master.toks[it.hi - 1].end, txt))
-                report["functions"][name] = {"status": "quarantined", "exec_tokens": len(A)}
+                report["functions"][name] = {"status": "quarantined", "exec_tokens": len(A), "props": mprops}
             elif K == A:
                 report["functions"][name] = {"status": "exact", "exec_tokens": len(K)}
             else:
@@ -200,14 +222,19 @@ def splice(prelude_src, master_src, ext_src, deferred, quarantined=()):
                     report["types"][it.name] = "exact"
                 else:
                     report["types"][it.name] = "changed"
-                    report["errors"].append("type %s differs between /repo and the contracts" % it.name)
+                    et = etypes[it.name]
+                    # master's attributes (derives for Verus) + the definition of /repo
+                    a_end = rtok._skip_attrs(master.toks, it.lo, it.hi)
+                    attrs = master.src[master.toks[it.lo].start:master.toks[a_end].start] if a_end > it.lo else ""
+                    e_a_end = rtok._skip_attrs(ext.toks, et.lo, et.hi)
+                    body = ext.src[ext.toks[e_a_end].start:ext.toks[et.hi - 1].end]
+                    edits.append((master.toks[it.lo].start, master.toks[it.hi - 1].end, attrs + body))
     for name, it in etypes.items():
         if name not in report["types"]:
             report["errors"].append("type %s of /repo is missing from the contracts" % name)
     # functions of /repo that have no contract (new in the working tree): emitted unverified and without
     # a specification (`external_body`); what their callers can still prove is decided downstream
     tail = []
-    report["uncontracted"] = []
     for top in ext.items:
         members = top.children if top.kind == "impl" else [top]
         ck = container_key(top.header_key) if top.kind == "impl" else ""
